@@ -81,6 +81,7 @@ pub struct Shape {
     pub alias_used: bool,
     pub redef_after_undef: bool,
     pub directive_in_other_segment: bool,
+    pub same_address_duplicate: bool,
     pub variant: &'static str,
 }
 
@@ -345,7 +346,14 @@ pub fn build(r: &RawSyms) -> Built {
         Variant::DuplicateLabel(sel) => {
             if let Some(i) = pick(*sel, &|i| r.syms[i].kind <= 2 && state[i] == State::Defined) {
                 let sp = recase(&name(i), (*sel % 3) as u8, 0x5555_5555);
-                // the second definition sits in the code, data or EEPROM segment, whatever the first one did
+                // the second definition sits in the code, data or EEPROM segment, whatever the first one did;
+                // or it is a bare label line directly in front of the first one: same segment, same address
+                if (*sel / 9) % 3 == 1 && def_line[i].map_or(false, |at| at <= prog.len() && prog.len() == na.len()) {
+                    let at = def_line[i].unwrap();
+                    prog.insert(at, Ln::label(&sp));
+                    na.insert(at, Ln::label(&sp));
+                    shape.same_address_duplicate = true;
+                } else {
                 match (*sel / 3) % 3 {
                     0 => push(&mut prog, &mut na, Ln::with_label(&sp, St::Ins("nop".into(), vec![]))),
                     1 => {
@@ -358,6 +366,7 @@ pub fn build(r: &RawSyms) -> Built {
                         push(&mut prog, &mut na, Ln::with_label(&sp, St::Data(DKind::Db, vec![DItem::Ex(E::Num(1))])));
                         push(&mut prog, &mut na, Ln::st(St::Seg(Seg::Code)));
                     }
+                }
                 }
                 expect_fail = true;
                 shape.variant = "duplicate-label";
@@ -406,6 +415,7 @@ pub fn test(r: &RawSyms, ev: &mut Ev, opts: &ModelOpts) -> Result<(), Violation>
         ("alias-used", b.shape.alias_used),
         ("alias-redefined-after-undef", b.shape.redef_after_undef),
         ("set-def-undef-while-dseg-or-eseg-is-current", b.shape.directive_in_other_segment),
+        ("duplicate-label-at-the-same-address", b.shape.same_address_duplicate),
     ] {
         if on {
             ev.class(c);
